@@ -148,6 +148,7 @@ func PutMeta(container, signature, publicKey, token, metaOnChain)
   ensures [C04] notifs == old(notifs) ++ [PutSuccess(sha256(container), publicKey)]
 
 func Delete(containerID, signature, token)
+  cover [C04] live(store, containerID) && W(alphabet())
   // deleting a missing container changes nothing and notifies nothing
   ensures [C04] !live(old(store), containerID) ==> store == old(store) && notifs == old(notifs) && xcalls == old(xcalls)
   ensures [C04] live(old(store), containerID) ==> W(alphabet())
@@ -354,6 +355,8 @@ pure isNew(k Bytes, cid Bytes, v Int, lo Int, hi Int) Bool = prefix(upre(cid, v)
 
 func AddNextEpochNodes(cID, placementVector, publicKeys)
   requires [Pre] pendingWF(store, cID, placementVector) && lastCtr(store, cID, placementVector) + len(publicKeys) < 32768
+  cover [C14] W(alphabet()) && len(cID) == 32 && placementVector == 0 && len(publicKeys) == 2 && len(publicKeys[0]) == 33 && len(publicKeys[1]) == 33
+  cover [C14] W(alphabet()) && len(cID) == 32 && placementVector == 254 && len(publicKeys) == 0 && cnt(store, upre(cID, 253)) > 0
   ensures [C14] W(alphabet()) && len(cID) == 32 && placementVector < 255
   ensures [C14] placementVector == 0 || cnt(old(store), upre(cID, placementVector - 1)) > 0
   ensures [C14] forall j Int {publicKeys[j]} :: 0 <= j && j < len(publicKeys) ==> len(publicKeys[j]) == 33
@@ -378,6 +381,8 @@ func AddNextEpochNodes(cID, placementVector, publicKeys)
 // Input assumption: the container id does not start with the ten bytes "nsHasAlias" (otherwise n<cid> is a prefix of alias keys).
 func CommitContainerListUpdate(cID, replicas)
   requires [Pre] !prefix("nsHasAlias", cID)
+  cover [C14] W(alphabet()) && len(cID) == 32 && len(replicas) == 2 && replicas[0] == 255
+  cover [C14] W(alphabet()) && len(cID) == 32 && isnil(replicas)
   ensures [C14] W(alphabet()) && len(cID) == 32
   ensures [C14] forall k Bytes {store.opt(k)} :: prefix("u" ++ cID, k) ==> !store.has(k)
   ensures [C14] forall k Bytes {store.opt(k)} :: prefix("n" ++ cID, k) ==> store.opt(k) == old(store).opt("u" ++ k[1:])
